@@ -43,4 +43,23 @@ def numErrCheck (e : Nat) (l : List F64) : Bool × Bool × Bool :=
    decide (l.length < 2) ||
      (r.varianceF.isFinite && within r.varianceF.toRat (sampleVariance q) (varianceErrBound M l.length)))
 
+/-- The scale `2^(j − 1074)` as a rational (`j = 1074 + e` for the magnitude bound `2^e`, `e` of either sign). -/
+def scaleOf (j : Nat) : Rat := ((2 ^ j : Nat) : Rat) / F64.two1074
+
+/-- The class of the SCALED error theorems: `536 ≤ j ≤ 1554` (`2^-538 ≤ M ≤ 2^480`), a non-empty list of finite samples
+of magnitude at most `M = 2^(j − 1074)` – small data gets a tolerance proportional to its own scale (`u·M`, `u·M²`). -/
+def inErrClassJ (j : Nat) (l : List F64) : Bool :=
+  decide (536 ≤ j) && decide (j ≤ 1554) && !l.isEmpty &&
+  l.all fun x => x.isFinite && decide (-(scaleOf j) ≤ x.toRat) && decide (x.toRat ≤ scaleOf j)
+
+/-- `numErrCheck` with the magnitude bound `M = 2^(j − 1074)`. -/
+def numErrCheckJ (j : Nat) (l : List F64) : Bool × Bool × Bool :=
+  let r := runFv false l
+  let q := l.map F64.toRat
+  let M : Rat := scaleOf j
+  (r.mean.isFinite && within r.mean.toRat (mean q) (meanErrBound M l.length),
+   r.variance.isFinite && within r.variance.toRat (m2 q) (m2ErrBound M l.length),
+   decide (l.length < 2) ||
+     (r.varianceF.isFinite && within r.varianceF.toRat (sampleVariance q) (varianceErrBound M l.length)))
+
 end Rare.C07
